@@ -489,7 +489,8 @@ class Worker(object):
                 else:
                     args.pop(0)
 
-            os.environ = old_env
+            os.environ.clear()
+            os.environ.update(old_env)
 
         self._log.debug('%s: got %s', uid, out)
 
@@ -547,7 +548,8 @@ class Worker(object):
             sys.stdout = bak_stdout
             sys.stderr = bak_stderr
 
-            os.environ = old_env
+            os.environ.clear()
+            os.environ.update(old_env)
 
         return out, err, ret, val, exc
 
@@ -615,7 +617,8 @@ class Worker(object):
             sys.stdout = bak_stdout
             sys.stderr = bak_stderr
 
-            os.environ = old_env
+            os.environ.clear()
+            os.environ.update(old_env)
 
         return out, err, ret, val, exc
 
